@@ -258,12 +258,17 @@ impl RegExpBuilder {
 /// Replaces Rust Unicode escape sequences to Python Unicode escape sequences.
 fn replace_unicode_escape_sequences(regexp: String) -> String {
     lazy_static! {
-        static ref ESCAPE_SEQUENCE: Regex = Regex::new(r"\\u\{([0-9a-f]{1,6})\}").unwrap();
+        static ref ESCAPE_SEQUENCE: Regex = Regex::new(r"\\\\|\\u\{([0-9a-f]{1,6})\}").unwrap();
     }
     // Python expects exactly four digits after \u and exactly eight digits after \U.
     ESCAPE_SEQUENCE
         .replace_all(&regexp, |caps: &Captures| {
-            let code_point = u32::from_str_radix(&caps[1], 16).unwrap();
+            // An escaped backslash is kept as it is. A literal `u` with a quantifier
+            // behind it, as in `\\u{2}`, is not an escape sequence.
+            let Some(digits) = caps.get(1) else {
+                return caps[0].to_string();
+            };
+            let code_point = u32::from_str_radix(digits.as_str(), 16).unwrap();
             if code_point <= 0xffff {
                 format!("\\u{:04x}", code_point)
             } else {
